@@ -5,6 +5,8 @@ package functioncontracts
 import (
 	"fmt"
 	"go/ast"
+	"go/constant"
+	"go/token"
 	"go/types"
 
 	"go.uber.org/nilaway/util/analysishelper"
@@ -36,6 +38,7 @@ type VerifBlock struct {
 	Defs         []int // value ids of the other instructions of the block that are values (among the rendered ones)
 	// the comparison the block ends with, if it ends with an If on a BinOp
 	HasIf      bool
+	Negated    bool   // the comparison is reached through comparisons with boolean constants that negate it an odd number of times
 	Op         string // "==", "!=", or another operator
 	X, Y       int
 	BarsNil    bool // TypeBarsNilness(X.Type())
@@ -165,7 +168,28 @@ func verifDump(pkg string, fn *ssa.Function) (res VerifFunc) {
 		if len(b.Instrs) > 0 {
 			switch last := b.Instrs[len(b.Instrs)-1].(type) {
 			case *ssa.If:
-				if binOp, ok := last.Cond.(*ssa.BinOp); ok {
+				cond := last.Cond
+				for {
+					// `c == true`, `false != c`, ...: the condition is c, negated when the comparison says "differs from true"
+					outer, ok := cond.(*ssa.BinOp)
+					if !ok || (outer.Op != token.EQL && outer.Op != token.NEQ) {
+						break
+					}
+					inner, value, found := ssa.Value(nil), false, false
+					if c, ok := outer.Y.(*ssa.Const); ok && c.Value != nil && c.Value.Kind() == constant.Bool {
+						inner, value, found = outer.X, constant.BoolVal(c.Value), true
+					} else if c, ok := outer.X.(*ssa.Const); ok && c.Value != nil && c.Value.Kind() == constant.Bool {
+						inner, value, found = outer.Y, constant.BoolVal(c.Value), true
+					}
+					if !found {
+						break
+					}
+					if (outer.Op == token.EQL) != value {
+						vb.Negated = !vb.Negated
+					}
+					cond = inner
+				}
+				if binOp, ok := cond.(*ssa.BinOp); ok {
 					vb.HasIf, vb.Op = true, binOp.Op.String()
 					vb.X, vb.Y = visit(binOp.X), visit(binOp.Y)
 					vb.BarsNil = typeshelper.TypeBarsNilness(binOp.X.Type())
